@@ -38,6 +38,19 @@ json run_read_job(const json& job) {
     json blocks = json::array();
     uint64_t nblocks = 0;
     bool hook_ok = true;
+    // the other documented reading idiom: ONE CdnsBlockRead object that every block is assigned to.  What it returns must equal
+    // what the fresh object of this iteration returns (address events compared as a multiset: their order is unspecified)
+    bool reuse = job.value("reuse", dump == "full");
+    CdnsBlockRead reused;
+    auto canon = [](json j) {
+        if (j.contains("aec") && j["aec"].is_array()) {
+            std::vector<std::string> v;
+            for (auto& a : j["aec"]) v.push_back(a.dump(-1, ' ', false, json::error_handler_t::replace));
+            std::sort(v.begin(), v.end());
+            j["aec"] = v;
+        }
+        return j.dump(-1, ' ', false, json::error_handler_t::replace);
+    };
     try {
         CdnsReader reader(*in);
         r["hdr"] = "ok";
@@ -51,7 +64,18 @@ json run_read_job(const json& job) {
                 hook_ok = hook_ok && Access::dec_consistent(Access::rdr_decoder(reader));
                 if (eof) { r["end"] = "eof"; break; }
                 nblocks++;
+                if (reuse) reused = b;
                 json bj = block2j(b, tables, render, render_bytes);
+                if (reuse && !r.contains("reuse_differs")) {
+                    try {
+                        uint64_t dummy = 0;
+                        json bj2 = block2j(reused, tables, false, dummy);
+                        if (canon(bj2) != canon(bj)) r["reuse_differs"] = {{"block", nblocks - 1}};
+                    }
+                    catch (std::exception& e) {
+                        r["reuse_differs"] = {{"block", nblocks - 1}, {"exc", exc_name(e)}, {"what", e.what()}};
+                    }
+                }
                 if (dump == "full") blocks.push_back(bj);
                 else if (dump == "counts") blocks.push_back(bj["counts"]);
                 else if (dump == "hash") blocks.push_back(fnv64(bj.dump(-1, ' ', false, json::error_handler_t::replace)));
